@@ -233,7 +233,7 @@ package kv
 //@   ensures [C13.client.set+C14+C15] r.NodeHost.lastErr == nil && r.NodeHost.lastRes.Value == 2 ==> err != nil && (err == ErrVersionMismatch ==> p == pairOf(r.NodeHost.lastRes.Data))
 //@   ensures [C13.client.set+C14+C15] err == nil ==> r.NodeHost.lastErr == nil && r.NodeHost.lastRes.Value != 2 && p == pairOf(r.NodeHost.lastRes.Data)
 //@   ensures [C13.client.set+C14+C15] err == ErrVersionMismatch ==> r.NodeHost.lastErr != nil || r.NodeHost.lastRes.Value == 2
-//@   modifies r.NodeHost.lastRes, r.NodeHost.lastErr, r.NodeHost.lastCmd, r.NodeHost.nelem
+//@   modifies r.NodeHost.lastRes, r.NodeHost.lastErr, r.NodeHost.lastCmd, r.NodeHost.nelem, r.NodeHost.nseq
 //@   dead return 1
 
 //@ func (*RaftStore).Delete
@@ -243,5 +243,5 @@ package kv
 //@   ensures [C13.client.delete+C14+C15] updOf(r.NodeHost.lastCmd).Op == "delete" && updOf(r.NodeHost.lastCmd).KVPair.Key == key && updOf(r.NodeHost.lastCmd).KVPair.Ver == ver
 //@   ensures [C13.client.delete+C14+C15] r.NodeHost.lastErr == nil && r.NodeHost.lastRes.Value == 2 ==> err == ErrVersionMismatch
 //@   ensures [C13.client.delete+C14+C15] err == nil ==> r.NodeHost.lastErr == nil && r.NodeHost.lastRes.Value != 2
-//@   modifies r.NodeHost.lastRes, r.NodeHost.lastErr, r.NodeHost.lastCmd, r.NodeHost.nelem
+//@   modifies r.NodeHost.lastRes, r.NodeHost.lastErr, r.NodeHost.lastCmd, r.NodeHost.nelem, r.NodeHost.nseq
 //@   dead return 1
